@@ -41,21 +41,21 @@ Section Inst.
       | s :: rest =>
         do (st1, o1) <-
           match s with
-          | SOut es => do o <- eval_out (slk env st) (s_heap st) es; Ok (st, o)
+          | SOut es => do o <- eval_out (slk d env st) (s_heap st) es; Ok (st, o)
           | SIf t body elifs els =>
-              do v <- eval (slk env st) (s_heap st) t;
+              do v <- eval (slk d env st) (s_heap st) t;
               if truthy v then sxi f env st body
               else
                 (fix go (ei : list stmt) : res (sstate * str) :=
                    match ei with
                    | [] => sxi f env st els
                    | SIf t2 b2 _ _ :: r =>
-                       do v2 <- eval (slk env st) (s_heap st) t2;
+                       do v2 <- eval (slk d env st) (s_heap st) t2;
                        if truthy v2 then sxi f env st b2 else go r
                    | _ :: r => go r
                    end) elifs
           | SFor tg it te body els =>
-              do v <- eval (slk env st) (s_heap st) it;
+              do v <- eval (slk d env st) (s_heap st) it;
               do items <- iter_items v;
               do r <- (fix iter (items : list value) (idx : N) (st : sstate) (out : str)
                          : res (sstate * str * N) :=
@@ -67,7 +67,7 @@ Section Inst.
                                 | Some t =>
                                     (* the filter sees the loop target and the enclosing scopes *)
                                     let '(i, stt) := new_scope st [(tg, item)] in
-                                    do tv <- eval (slk (i :: env) stt) (s_heap stt) t; Ok (truthy tv)
+                                    do tv <- eval (slk d (i :: env) stt) (s_heap stt) t; Ok (truthy tv)
                                 end);
                       if ok then
                         let '(i, st) := new_scope st [(tg, item); (n_loop, VLoop (idx + 1))] in
@@ -86,19 +86,19 @@ Section Inst.
                   else Ok (st, out)
               end
           | SSet x e =>
-              do v <- eval (slk env st) (s_heap st) e;
+              do v <- eval (slk d env st) (s_heap st) e;
               Ok (sassign env st x v, [])
           | SSetAttr x a e =>
-              do c <- slk env st x;
+              do c <- slk d env st x;
               match c with
               | VNs nid =>
-                  do v <- eval (slk env st) (s_heap st) e;
+                  do v <- eval (slk d env st) (s_heap st) e;
                   Ok (sset_heap st (ns_set (s_heap st) nid a v), [])
               | _ => Err ERuntimeError
               end
           | SNsNew x kvs =>
-              do c <- slk env st n_namespace;
-              do vs <- eval_kvs (slk env st) (s_heap st) kvs;
+              do c <- slk d env st n_namespace;
+              do vs <- eval_kvs (slk d env st) (s_heap st) kvs;
               match c with
               | VNsCtor =>
                   let nid := length (s_heap st) in
@@ -111,7 +111,7 @@ Section Inst.
               do (st, o) <- sxi f (i :: env) st body;
               Ok (sassign env st x (VStr o), [])
           | SWith binds body =>
-              do vs <- eval_list (slk env st) (s_heap st) (map snd binds);
+              do vs <- eval_list (slk d env st) (s_heap st) (map snd binds);
               let '(i, st) := new_scope st (fold_left (fun acc xv => dset N.eqb (fst xv) (snd xv) acc)
                                                       (combine (map fst binds) vs) []) in
               do (st, o) <- sxi f (i :: env) st body;
@@ -123,14 +123,14 @@ Section Inst.
           | SMacro m ps body =>
               Ok (sassign env st m (VClos KMacro m ps body (macro_uses_caller body) env [Sr]), [])
           | SCallOut g args =>
-              do c <- slk env st g;
-              do vs <- eval_list (slk env st) (s_heap st) args;
+              do c <- slk d env st g;
+              do vs <- eval_list (slk d env st) (s_heap st) args;
               do (st', r) <- call st c vs None;
               Ok (st', to_str r)
           | SCallBlock ps g args body =>
               let cl := VClos KCaller 0%N ps body (mentions_l n_caller body) env [] in
-              do c <- slk env st g;
-              do vs <- eval_list (slk env st) (s_heap st) args;
+              do c <- slk d env st g;
+              do vs <- eval_list (slk d env st) (s_heap st) args;
               do (st', r) <- call st c vs (Some cl);
               Ok (st', to_str r)
           end;
